@@ -27,6 +27,9 @@
 //	                      ignoreError callback swallows (n = 0: the error alone); fw kind only
 //	blk <typ> <len> <seed> append one well-formed TLV block (type, value length, fill seed) to the
 //	                      byte stream the peer "sent"                               => ok
+//	blkf <typ> <tf> <len> <lf> <seed>
+//	                      the same with T written in the <tf>-byte and L in the <lf>-byte form (1, 3, 5 or
+//	                      9 bytes, not necessarily the shortest that holds the number)  => ok
 //	rd <n>                the next Read returns min(n, bytes pending, len(p)) bytes  (app: repeated
 //	                      until n or all pending bytes were taken)
 //	                      => k=<bytes handed over> f=<len:fnv64 of every frame delivered, in order | ->
@@ -93,6 +96,42 @@ func Block(typ uint64, n int, seed int) []byte {
 	p += l.EncodeInto(b[p:])
 	copy(b[p:], Fill(n, seed))
 	return b
+}
+
+// tlForm writes x as a TLV number in the form that takes `form` bytes (1, 3, 5 or 9) — not necessarily
+// the shortest one; the readers accept every form.
+func tlForm(form int, x uint64) []byte {
+	switch form {
+	case 1:
+		return []byte{byte(x)}
+	case 3:
+		return []byte{0xfd, byte(x >> 8), byte(x)}
+	case 5:
+		return []byte{0xfe, byte(x >> 24), byte(x >> 16), byte(x >> 8), byte(x)}
+	default:
+		return []byte{0xff, byte(x >> 56), byte(x >> 48), byte(x >> 40), byte(x >> 32), byte(x >> 24), byte(x >> 16), byte(x >> 8), byte(x)}
+	}
+}
+
+// formFits: the form holds the value (the one-byte form holds 0..0xfc)
+func formFits(form int, x uint64) bool {
+	switch form {
+	case 1:
+		return x <= 0xfc
+	case 3:
+		return x <= 0xffff
+	case 5:
+		return x <= 0xffffffff
+	case 9:
+		return true
+	}
+	return false
+}
+
+// BlockForm: a block whose T is written in the <tf>-byte form and whose L in the <lf>-byte form
+func BlockForm(typ uint64, tf int, n int, lf int, seed int) []byte {
+	b := append(tlForm(tf, typ), tlForm(lf, uint64(n))...)
+	return append(b, Fill(n, seed)...)
 }
 
 // InterestBlock: a block that is an Interest (so that a full NDNLP link service accepts it): name of one
@@ -1189,6 +1228,20 @@ func exec(op string) string {
 		cur.defined += len(b)
 		cur.ends = append(cur.ends, cur.defined)
 		return "ok"
+	case "blkf":
+		// blkf <typ> <tform> <len> <lform> <seed>: like blk, T and L in the given (possibly not shortest) forms
+		if cur == nil || len(f) != 6 || cur.lis || cur.send != nil {
+			return "skip"
+		}
+		tf, lf := common.Atoi(f[2]), common.Atoi(f[4])
+		if !formFits(tf, common.Atou(f[1])) || !formFits(lf, uint64(common.Atoi(f[3]))) {
+			return "skip"
+		}
+		b := BlockForm(common.Atou(f[1]), tf, common.Atoi(f[3]), lf, common.Atoi(f[5]))
+		cur.pending = append(cur.pending, b...)
+		cur.defined += len(b)
+		cur.ends = append(cur.ends, cur.defined)
+		return "ok"
 	case "reopen":
 		if cur == nil || !cur.appo || len(f) != 4 {
 			return "skip"
@@ -1562,16 +1615,51 @@ func gen(g *common.Gen) {
 				if huge && n < 7000 {
 					n = r.Range(7000, 8700)
 				}
-				g.Op("blk %d %d %d", typ, n, seed)
-				g.Stat("blk")
 				h := hdrLen(typ, n)
-				switch enc.TLNum(n).EncodingLength() {
-				case 1:
-					g.Stat("blk-L1")
-				case 3:
-					g.Stat("blk-L3")
+				if !huge && r.Chance(1, 4) {
+					// T and / or L in a form that is not the shortest one (the quantifier's "1/3/5-byte
+					// length forms" of blocks of at most 8800 bytes: a 5-byte L is never the shortest)
+					forms := []int{1, 3, 5, 9}
+					tf, lf := common.Pick(r, forms), common.Pick(r, forms[:3])
+					if r.Chance(1, 3) {
+						tf = enc.TLNum(typ).EncodingLength()
+					}
+					for !formFits(tf, typ) {
+						tf += 2
+						if tf == 7 {
+							tf = 9
+						}
+					}
+					if tf+lf+n > maxPkt {
+						n = maxPkt - tf - lf
+					}
+					for !formFits(lf, uint64(n)) {
+						lf += 2
+					}
+					if tf+lf+n > maxPkt {
+						n = maxPkt - tf - lf
+					}
+					h = tf + lf
+					g.Op("blkf %d %d %d %d %d", typ, tf, n, lf, seed)
+					g.Stat("blkf")
+					g.Stat(fmt.Sprintf("blkf-T%d-L%d", tf, lf))
+					if tf != enc.TLNum(typ).EncodingLength() {
+						g.Stat("blkf-T-not-shortest")
+					}
+					if lf != enc.TLNum(n).EncodingLength() {
+						g.Stat("blkf-L-not-shortest")
+					}
+				} else {
+					g.Op("blk %d %d %d", typ, n, seed)
+					g.Stat("blk")
+					switch enc.TLNum(n).EncodingLength() {
+					case 1:
+						g.Stat("blk-L1")
+					case 3:
+						g.Stat("blk-L3")
+					}
+					g.Stat("blk-T" + strconv.Itoa(enc.TLNum(typ).EncodingLength()))
 				}
-				g.Stat("blk-T" + strconv.Itoa(enc.TLNum(typ).EncodingLength()))
 				if h+n == maxPkt {
 					g.Stat("blk-maxsize")
 				}
